@@ -105,6 +105,21 @@ JudgeInvalid(o) ==
   Say(/\ o.saveErr /\ o.saveFiles = 0 /\ o.pkgErr /\ o.pkgFiles = 0 /\ o.pkgVerErr /\ o.pkgVerFiles = 0,
       <<"OBSVIOL", i, "C15_InvalidNotPackaged">>)
 
+\* one Package value / one `helm package` command line for a list of charts: chart j comes out under ITS expected
+\* version and appVersion (Archive!ExpPkgVersion / ExpPkgApp), in the file name and in the loaded metadata, and is
+\* otherwise equal to what LoadDir makes of its directory; one archive per chart
+JudgePkgList(o) ==
+  LET c == o.list  n == Len(c.vers) IN
+  /\ Say(Len(o.pkgList) = n /\ c \in PkgListCases, <<"OBSDIV", i, "pkglist-case-not-as-specified">>)
+  /\ Say(/\ Len(o.pkgList) = n
+         /\ o.pkgFiles = n
+         /\ \A j \in 1..n : LET r == o.pkgList[j] IN
+               /\ ~r.err /\ r.nameOk
+               /\ r.fileVer = ExpPkgVersion(c, j) /\ r.metaVer = ExpPkgVersion(c, j)
+               /\ r.metaApp = ExpPkgApp(c, j)
+               /\ r.diffs = <<>>,
+         <<"OBSVIOL", i, "C15_PackageList">>)
+
 \* ignore rules over the documented syntax: the expected sets come from Archive!IgnoredSet on the case's rules
 JudgeIgnore(o) ==
   LET rules == SeqRange(o.rules)
@@ -122,6 +137,7 @@ Judge15 ==
   ELSE CASE o.fam = "roundtrip" -> JudgeRoundTrip(o)
          [] o.fam = "invalid" -> JudgeInvalid(o)
          [] o.fam = "ignore" -> JudgeIgnore(o)
+         [] o.fam = "pkglist" -> JudgePkgList(o)
          [] OTHER -> PrintT(<<"OBSDIV", i, "unknown-family">>)
 
 Judge == IF Family = "C16" THEN Judge16 ELSE Judge15
